@@ -132,6 +132,10 @@ def _do_model(spec, v, row):
     raise HarnessError(kind)
 
 
+class OperandChanged(Exception):
+    pass
+
+
 def model_apply(op, mp, vals):
     """mp: list of MT (aliasing = same object). vals: decoded values of op (same objects the real side gets).
     returns ('table', MT, alias_of|None) | ('value', v) | ('error', type) | ('inplace', None)"""
@@ -284,6 +288,9 @@ def model_apply(op, mp, vals):
         return 'table', MT(cs, [{c: r[c] for c in cs} for r in t.rows]), None
     if k in ('concat', 'add'):
         ts = [mp[i] for i in op['ts']]
+        if k == 'concat' and 'rec' in op:
+            rec = vals['rec']
+            ts = ts + [MT(list(rec), [dict(rec)])]      # a plain record among the operands is a one-row table
         if len(ts) == 1:
             return 'table', ts[0], op['ts'][0]
         cols = []
@@ -329,6 +336,9 @@ def model_apply(op, mp, vals):
         r = _bcast([(c, v) for c, v in vals['pairs']])
         return ('error', r.tp) if isinstance(r, MErr) else ('table', r, None)
     if k == 'new_from_table':
+        if op.get('hdr') is not None:
+            t = T()
+            return 'table', MT(list(op['hdr']), [{c: r.get(c) for c in op['hdr']} for r in t.rows]), None
         return 'table', T().copy(), None
     if k == 'update':
         t = T()
@@ -449,6 +459,13 @@ def real_apply(op, pool, vals):
         return T() - (cs[0] if len(cs) == 1 and op.get('single') else list(cs))
     if k == 'concat':
         ts = [pool[i] for i in op['ts']]
+        if 'rec' in op:
+            rec = dict(vals['rec'])
+            parts = ts + [rec]
+            res = dictable.concat(*parts) if op.get('star') else dictable.concat(parts)
+            if len(parts) != len(ts) + 1 or parts[-1] is not rec or type(rec) is not dict or not same(rec, dict(vals['rec'])) or any(a is not b for a, b in zip(parts, ts)):
+                raise OperandChanged('dictable.concat edited the list of operands it was given: %r' % (parts,))
+            return res
         return dictable.concat(*ts) if op.get('star') else dictable.concat(ts)
     if k == 'add':
         ts = [pool[i] for i in op['ts']]
@@ -471,6 +488,9 @@ def real_apply(op, pool, vals):
     if k == 'new_pairs':
         return dictable([(c, v) for c, v in vals['pairs']])
     if k == 'new_from_table':
+        if op.get('hdr') is not None:
+            # a table re-headed: the listed columns in the listed order, columns it lacks filled with None (also when it has no rows)
+            return dictable(T(), columns=list(op['hdr'])) if op.get('hdr_kw') else dictable(T(), list(op['hdr']))
         return dictable(T())
     if k == 'update':
         if op.get('via') == 'attr':
@@ -575,6 +595,10 @@ def run_history(case, ctx):
                 return
         elif mres[0] == 'table':
             if not ctx.check('op_result', type(rres) is dictable, lambda: 'step %d %s returned %s not a dictable' % (step, op, type(rres))):
+                return
+            if k == 'project' and not ctx.check('op_result', list(rres.keys()) == list(op['cs']), lambda: 'step %d %s: the projection lists its columns as %s, asked for %s (in that order: what a positional renaming afterwards goes by)' % (step, op, list(rres.keys()), op['cs'])):
+                return
+            if k == 'new_from_table' and op.get('hdr') is not None and not ctx.check('op_result', list(rres.keys()) == list(op['hdr']), lambda: 'step %d %s: the re-headed table lists its columns as %s' % (step, op, list(rres.keys()))):
                 return
             mt, alias = mres[1], mres[2]
             if alias is not None:
@@ -727,6 +751,13 @@ def gen_history(rng, nops):
             op = {'op': 'new_pairs', 'pairs': pairs, 'dst': dst}
         elif k == 'new_from_table':
             op = {'op': 'new_from_table', 't': t, 'dst': dst}
+            if m.cols and rng.random() < 0.5:
+                hdr = gen.subset(rng, m.cols, 1)
+                rng.shuffle(hdr)
+                if free and rng.random() < 0.3:
+                    hdr.insert(rng.randrange(len(hdr) + 1), free[0])
+                op['hdr'] = hdr
+                op['hdr_kw'] = rng.random() < 0.5
         elif k == 'row' and m.n:
             op = {'op': 'row', 't': t, 'i': rng.randrange(-m.n, m.n)}
             if rng.random() < 0.25:
@@ -823,6 +854,10 @@ def gen_history(rng, nops):
             ts = [rng.randrange(len(mp)) for _ in range(rng.choice([0, 1, 2, 2, 2, 3]) if k == 'concat' else rng.choice([2, 3]))]
             if sum(mp[i].n for i in ts) <= 12:
                 op = {'op': k, 'ts': ts, 'star': rng.random() < 0.5, 'dst': dst}
+                if k == 'concat' and ts and rng.random() < 0.25:
+                    ks_ = list(dict.fromkeys(gen.subset(rng, mp[ts[0]].cols + free[:1], 1))) if (mp[ts[0]].cols or free) else []
+                    if ks_:
+                        op['rec'] = {c: gen.cell(rng) for c in ks_}       # a plain record among the operands
         elif k == 'add_record' and m.n <= 10:
             ks = gen.subset(rng, (m.cols or ['a']) + free[:1], 1)
             op = {'op': 'add_record', 't': t, 'rec': {c: gen.cell(rng) for c in ks}, 'dst': dst}
